@@ -104,6 +104,8 @@ def read_request(draw, p, tags=None):
     if type_ not in ATOMIC and p.udts[type_].get("string") is None and draw(st.integers(0, 2)) > 0:
         path, m = draw(descend(p, type_))
         r["path"] = path
+        if path:
+            r["count"] = None   # an element count applies to the last array in the request only
         if m is not None:
             if m["kind"] == "bit":
                 return r
@@ -209,7 +211,8 @@ def write_request(draw, p, tags=None):
                 r["idx"] = [start * 32]
             r["count"] = words * 32
             extra = draw(st.sampled_from([0, 0, 0, 5]))
-            r["value"] = draw(st.lists(st.booleans(), min_size=words * 32 + extra, max_size=words * 32 + extra))
+            pat = draw(st.lists(st.booleans(), min_size=37, max_size=37))   # 37 is coprime to 32: words differ
+            r["value"] = [pat[k % 37] for k in range(words * 32 + extra)]
             return r
         form = draw(st.sampled_from(["bare", "idx", "idx", "count", "idxcount", "idxcount", "whole"]))
         lin = 0
@@ -240,6 +243,8 @@ def write_request(draw, p, tags=None):
     if type_ not in ATOMIC and p.udts[type_].get("string") is None and draw(st.integers(0, 2)) > 0:
         path, m = draw(descend(p, type_, for_write=True))
         r["path"] = path
+        if path:
+            r["count"] = None
         if m is not None:
             if m["kind"] == "bit":
                 r["value"] = draw(st.booleans())
